@@ -239,7 +239,10 @@ func c16Run(c *ev.Ctx) {
 	}
 	// long plans pushing the dictionary over the 128 KiB trim threshold
 	plans = append(plans, planSeq{[]int{65536, 65536, 65536}, 5}, planSeq{[]int{65536, 70000, 5}, 5}, planSeq{[]int{40000, 40000, 40000, 40000, 40000}, 5},
-		planSeq{[]int{100000, 100000, 13}, 5}, planSeq{[]int{65536, 65536, 65536, 100}, 4})
+		planSeq{[]int{100000, 100000, 13}, 5}, planSeq{[]int{65536, 65536, 65536, 100}, 4},
+		// a block that fills a block-maximum-sized read buffer exactly, then a small one; blocks a
+		// few bytes longer than the 64 KiB window
+		planSeq{[]int{262144, 100}, 5}, planSeq{[]int{200000, 62144, 50}, 5}, planSeq{[]int{65540, 100}, 5}, planSeq{[]int{65540, 13}, 5}, planSeq{[]int{65560, 65540, 100}, 5})
 	if c.Thorough() {
 		plans = append(plans, planSeq{[]int{4 << 20, 5}, 7}, planSeq{[]int{100, 4 << 20}, 7}, planSeq{[]int{4 << 20, 4 << 20}, 7})
 	}
